@@ -36,41 +36,86 @@ def slot_group(ctx, R, body, want_variant):
     return sets, stores
 
 
+def _slot_key(ctx, R, fl, t):
+    """Key expression of the slot a Pin::set site writes: the index given to the slice lookup (in place or through the
+    shared lookup helper) its receiver comes from; None when the receiver is not a looked-up slot."""
+    e = fl.operand_expr(t["args"][0])
+    for c in expr_calls(e):
+        nm = c[1] or ""
+        if re.search(r"core::slice::<impl \[T\]>::(get_mut|get_unchecked_mut)$", nm) and len(c[2]) > 1:
+            return strip_refs(c[2][1])
+        cb = ctx.facts.bodies.get(nm)
+        if cb is not None and cb in R.slotmap_methods and c[2] and \
+                re.match(r"core::option::Option<core::pin::Pin<&mut %s<" % re.escape(R.slot_enum[0]), cb.locals[0]):
+            return strip_refs(c[2][-1])
+    return None
+
+
+def _is_self_field(e, field=None):
+    e = strip_refs(e)
+    return e[0] == "proj" and bool(e[2]) and e[2][-1].startswith(".") and (field is None or e[2][-1] == field) and \
+        strip_refs(e[1])[0] == "param"
+
+
 def r2_3(ctx, R):
-    ctx.rule("R2.3", "slot-map atomic groups: on every feasible entry->return path of INSERT / REMOVE the effects "
-                     "{Pin::set(slot, variant), head store, counter +-1} occur all exactly once or not at all; INSERT: "
-                     "'none' exactly on paths returning Err(arg); REMOVE: a guard path exists (slot absent / already free)")
+    ctx.rule("R2.3", "slot-map atomic groups over a linked free list: on every feasible entry->return path of INSERT the effects "
+                     "{Pin::set(taken slot, Occupied), head := the taken slot's next-free link, counter + 1} occur all exactly "
+                     "once or not at all ('none' exactly on paths returning Err(arg)); on every path of REMOVE {Pin::set(slot "
+                     "of the key, Free), counter - 1} likewise (a guard path exists: slot absent / already free); every other "
+                     "bookkeeping write (a tail pointer, a link written into another vacant slot) happens only on effect "
+                     "paths; REMOVE publishes the key on every effect path (stored into a link field or into the link of a "
+                     "slot known to be vacant) and, where it makes the key the new head, the freed slot links to the old head "
+                     "(or the path has established that the list was empty)")
     occ, free = R.slot_variants
     res = {}
-    for role, body, variant, delta in (("INSERT", R.insert_fn, occ, +1), ("REMOVE", R.remove_fn, free, -1)):
+    ins = R.insert_fn
+    rem = R.remove_fn
+    head = None
+    for role, body, variant, delta in (("INSERT", ins, occ, +1), ("REMOVE", rem, free, -1)):
         fl = ctx.flow(body)
         sets, stores = slot_group(ctx, R, body, variant)
         succ, _ = feasible_cfg(body, fl)
         paths = [p for k, p in enumerate_paths(body, succ) if k == "return"]
         counter = None
-        head = None
         for (bb, i, fld, val, root, pe) in stores:
-            d = is_inc_of(val, fld)
-            if d == delta:
+            if is_inc_of(val, fld) == delta:
                 counter = fld
-            elif d is None:
-                head = fld
+        if role == "INSERT":
+            for (bb, i, fld, val, root, pe) in stores:
+                if fld != counter and val[0] == "proj" and ("@" + free) in val[2]:
+                    head = fld
         ctx.ob("R2.3", body, role + ":counter-field-updated-by-%+d" % delta, counter is not None, d_loc(body),
                "counter=%s head=%s" % (counter, head))
-        ctx.ob("R2.3", body, role + ":free-list-head-stored", head is not None, d_loc(body))
-        eff_blocks = [("set", {x[0] for x in sets})] + \
-                     [("store" + fld, {bb for (bb, i, f2, v, r, pe) in stores if f2 == fld}) for fld in {s[2] for s in stores}]
+        if role == "INSERT":
+            ctx.ob("R2.3", body, role + ":free-list-head-stored", head is not None, d_loc(body))
+        # primary effects / auxiliary bookkeeping
+        if role == "INSERT":
+            prim_sets = {x[0] for x in sets}
+            aux_sets = []
+        else:
+            keyed = [(x, _slot_key(ctx, R, fl, x[1])) for x in sets]
+            prim_sets = {x[0] for x, k in keyed if k is not None and k[0] == "param"}
+            aux_sets = [(x, k) for x, k in keyed if not (k is not None and k[0] == "param")]
+        group = [("set", prim_sets), ("store" + str(counter), {bb for (bb, i, f2, v, r, pe) in stores if f2 == counter})]
+        if role == "INSERT":
+            group.append(("store" + str(head), {bb for (bb, i, f2, v, r, pe) in stores if f2 == head}))
+        gfields = {counter} | ({head} if role == "INSERT" else set())
+        aux_blocks = {bb for (bb, i, f2, v, r, pe) in stores if f2 not in gfields} | {x[0] for x, k in aux_sets}
         npaths = 0
         none_paths = 0
         bad = []
+        all_paths = []
         for p in paths:
             npaths += 1
-            counts = [sum(1 for b in p if b in blocks) for nm, blocks in eff_blocks]
+            counts = [sum(1 for b in p if b in blocks) for nm, blocks in group]
             if all(c == 0 for c in counts):
                 none_paths += 1
                 kind = "none"
+                if any(b in aux_blocks for b in p):
+                    bad.append((p, "bookkeeping write on a path without the slot effect"))
             elif all(c == 1 for c in counts):
                 kind = "all"
+                all_paths.append(p)
             else:
                 kind = "partial"
                 bad.append((p, counts))
@@ -81,47 +126,72 @@ def r2_3(ctx, R):
                     bad.append((p, "Err-return mismatch kind=%s err=%s" % (kind, ret_err)))
         ctx.ob("R2.3", body, role + ":all-or-none", not bad, d_loc(body),
                "%d feasible return paths, %d without effects; effects=%s; bad=%s" % (
-                   npaths, none_paths, [nm for nm, _ in eff_blocks], bad[:2]), path=[p for p, _ in bad[:1]] or None)
+                   npaths, none_paths, [nm for nm, _ in group], bad[:2]), path=[p for p, _ in bad[:1]] or None)
         ctx.ob("R2.3", body, role + ":has-guard-path", none_paths >= 1, d_loc(body),
                "a path without effects must exist (INSERT: full; REMOVE: slot absent or already free)")
         ctx.ob("R2.3", body, role + ":has-effect-path", npaths - none_paths >= 1, d_loc(body))
         res[role] = (counter, head)
-    # cross-check: both operate on the same counter / head fields
-    ctx.ob("R2.3", R.insert_fn, "INSERT/REMOVE agree on fields", res["INSERT"] == res["REMOVE"], d_loc(R.insert_fn),
+        if role == "REMOVE":
+            vf = variant_facts(body, fl)
+            from lib_flow import arrival_knowledge, path_bool_labels
+
+            def known_variant(bb, var):
+                if any(v_ == var for (_, v_) in vf.get(bb, frozenset())):
+                    return True
+                ak = arrival_knowledge(body, fl, bb)
+                return bool(ak) and all(any(v_ == var for v_ in k.values()) for k in ak)
+            # the effect region is entered only with the slot not Free
+            for x in sets:
+                if x[0] in prim_sets:
+                    ctx.ob("R2.3", body, "REMOVE:effects-only-on-occupied-slot", known_variant(x[0], occ), body.loc(x[0]),
+                           "facts at Pin::set: %s" % sorted(vf.get(x[0], frozenset())))
+            # a link written into ANOTHER slot: that slot is vacant on every arrival (Pin::set on an occupied slot would
+            # drop a live child) and the link written is the key being freed
+            for x, k in aux_sets:
+                payload = strip_refs(x[3][2][0]) if x[3][2] else ("unknown",)
+                ctx.ob("R2.3", body, "REMOVE:link-store-into-vacant-slot@%s" % _site_label(body, x[0]),
+                       known_variant(x[0], free) and payload[0] == "param", body.loc(x[0]),
+                       "slot key %s, payload %s" % (expr_str(k) if k else None, expr_str(payload)))
+            for p in all_paths:
+                pstores = [(bb, fld, val) for (bb, i, fld, val, root, pe) in stores if bb in p and fld != counter]
+                published = any(strip_refs(val)[0] == "param" for bb, fld, val in pstores) or \
+                    any(x[0] in p and x[3][2] and strip_refs(x[3][2][0])[0] == "param" for x, k in aux_sets)
+                ctx.ob("R2.3", body, "REMOVE:key-published", published, d_loc(body),
+                       "on every effect path the freed key is stored into a link field or a vacant slot's link", path=None if published else p)
+                hstores = [(bb, val) for bb, fld, val in pstores if fld == head]
+                for bb, val in hstores:
+                    ctx.ob("R2.3", body, "REMOVE:head-becomes-key", strip_refs(val)[0] == "param", body.loc(bb), expr_str(val))
+                for x in sets:
+                    if x[0] in prim_sets and x[0] in p:
+                        payload = x[3][2][0] if x[3][2] else None
+                        old_head = payload is not None and _is_self_field(payload, head)
+                        if hstores:
+                            # push-front: the freed slot must link to the old head -- unless the path has established that
+                            # the list was empty (a branch on the head against the number of slots)
+                            empty_known = any(head and head in repr(e_) and "len" in repr(e_) for e_, v_ in path_bool_labels(body, fl, p))
+                            ctx.ob("R2.3", body, "REMOVE:freed-slot-links-old-head", bool(old_head) or empty_known, body.loc(x[0]),
+                                   expr_str(x[3]), path=None if (old_head or empty_known) else p)
+    # cross-check: both operate on the same counter field
+    ctx.ob("R2.3", ins, "INSERT/REMOVE agree on fields", res["INSERT"][0] == res["REMOVE"][0], d_loc(ins),
            "INSERT %s REMOVE %s" % (res["INSERT"], res["REMOVE"]))
-    # REMOVE: guard is the already-free test: the effect region is entered only with the slot not Free
-    rem = R.remove_fn
-    fl = ctx.flow(rem)
-    vf = variant_facts(rem, fl)
-    sets, _ = slot_group(ctx, R, rem, free)
-    for (bb, t, v, e) in sets:
-        facts_here = vf.get(bb, frozenset())
-        occupied_known = any(var == occ for (_, var) in facts_here)
-        if not occupied_known:
-            # path-sensitive: on every feasible path arriving here the slot is known Occupied (e.g. through `matches!`)
-            from lib_flow import arrival_knowledge
-            ak = arrival_knowledge(rem, fl, bb)
-            occupied_known = bool(ak) and all(any(v == occ for v in k.values()) for k in ak)
-        ctx.ob("R2.3", rem, "REMOVE:effects-only-on-occupied-slot", occupied_known, rem.loc(bb),
-               "facts at Pin::set: %s" % sorted(facts_here))
-        # new free slot links to the old head; head becomes the key
-        payload = e[2][0] if e[2] else None
-        old_head = payload is not None and payload[0] == "proj" and payload[2][-1] == res["REMOVE"][1]
-        ctx.ob("R2.3", rem, "REMOVE:freed-slot-links-old-head", bool(old_head), rem.loc(bb), expr_str(e))
-    for (bb, i, fld, val, root, pe) in self_field_stores(rem, fl):
-        if fld == res["REMOVE"][1]:
-            ctx.ob("R2.3", rem, "REMOVE:head-becomes-key", strip_refs(val)[0] == "param", rem.loc(bb), expr_str(val))
-    ins = R.insert_fn
     fli = ctx.flow(ins)
     for (bb, i, fld, val, root, pe) in self_field_stores(ins, fli):
-        if fld == res["INSERT"][1]:
+        if fld == head:
             ok = val[0] == "proj" and ("@" + free) in val[2]
             ctx.ob("R2.3", ins, "INSERT:head-becomes-next-free-of-taken-slot", ok, ins.loc(bb), expr_str(val))
+    # the slot INSERT fills is the one the head designates, and it is known vacant there
+    vfi = variant_facts(ins, fli)
+    for x in R._pin_set_variant(ins):
+        if x[2] != occ:
+            continue
+        k = _slot_key(ctx, R, fli, x[1])
+        ctx.ob("R2.3", ins, "INSERT:fills-the-slot-the-head-designates", k is not None and _is_self_field(k, head), ins.loc(x[0]),
+               expr_str(k) if k else "no lookup")
     # Ok(key) returns the old head, Err returns the argument itself
     for bb, e in returned_exprs(ctx, ins):
         if e[0] == "agg" and e[1].endswith("Result::Ok"):
             v = e[2][0]
-            ok = v[0] == "proj" and v[2][-1] == res["INSERT"][1]
+            ok = v[0] == "proj" and v[2][-1] == head
             ctx.ob("R2.3", ins, "INSERT:returns-taken-key", ok, ins.loc(bb), expr_str(v))
         if e[0] == "agg" and e[1].endswith("Result::Err"):
             v = strip_refs(e[2][0])
@@ -242,12 +312,37 @@ def r2_2(ctx, R):
     for b, ss in R.callers_of(rem):
         n += 1
         ok = any(R.calls_to_body(b, d) for d in drains)
+        det = ""
+        if not ok:
+            # a join-style combinator cancelling what is left in its PRIVATE queue once its result buffer has been given up
+            # (error path): every arrival at the removal has passed the replacement of the buffer field, so no vacancy can be
+            # mistaken for a written output any more (C07's invariant); the four collections never get here
+            import c07
+            from lib_flow import all_arrivals_visit
+            for sp, fields in c07.mu_structs(ctx).items():
+                if b in c07.impl_fns_of(ctx, sp):
+                    inv = [x for x in c07.invalidating_sites(ctx, b, fields) if x[2]]
+                    okall = bool(inv)
+                    for (bb_, t_, fn_) in ss:
+                        okall = okall and any(all_arrivals_visit(b, ctx.flow(b), bb_, x[0]) for x in inv)
+                    ok = okall
+                    det = "cancellation in %s after the output buffer was given up: %s" % (sp, okall)
         # Drop impls may inspect (not remove); removal outside a DRAIN caller would vacate a slot whose output was not produced
-        ctx.ob("R2.2", b, "remove-caller-drains", ok, b.loc(ss[0][0]))
+        ctx.ob("R2.2", b, "remove-caller-drains", ok, b.loc(ss[0][0]), det)
     ctx.floor("R2.2", "remove-callers", n, 2)
     sm = ctx.facts.adts[R.slot_enum[1]]
     for f in sm["variants"][0]["fields"]:
         ctx.ob("R2.2", R.slot_enum[1], "field-private:" + f["name"], f["vis"] not in ("pub", "crate"), "", "vis=" + f["vis"])
+        # the occupied counter and the free-list links index / count the slots of a slice: anything narrower than usize wraps
+        # (a counter that reads 0 with 65536 children makes `is_empty` lie and the drain report Ready(None))
+        if re.match(r"(u8|u16|u32|u64|u128|i\d+|isize)$", f["ty"]):
+            ctx.ob("R2.2", R.slot_enum[1], "bookkeeping-width:" + f["name"], False, "", "%s is not usize" % f["ty"])
+    en = ctx.facts.adts[R.slot_enum[0]]
+    for v in en["variants"]:
+        for f in v["fields"]:
+            if re.match(r"(u8|u16|u32|u64|u128|i\d+|isize)$", f["ty"]):
+                ctx.ob("R2.2", R.slot_enum[0], "bookkeeping-width:%s" % v["name"], False, "", "free-list link of type %s is not usize" % f["ty"])
+    ctx.ob("R2.2", R.slot_enum[1], "bookkeeping-fields-are-usize", True, "", "checked %d fields" % len(sm["variants"][0]["fields"]))
 
 
 def _emptiness_cond(ctx, body, lab, counter_field):
@@ -629,6 +724,11 @@ def r2_7(ctx, R, counter, head):
         if b is R.insert_fn:
             keys_ok = lambda k: k[0] == "proj" and k[2] and k[2][-1] == head
             want = "self" + head
+        elif b is R.remove_fn:
+            # the slot being freed is looked up by the key; a second checked lookup by a link field (the tail of a FIFO
+            # free list) serves the link store that R2.3 audits
+            keys_ok = lambda k: k[0] == "param" or _is_self_field(k)
+            want = "key parameter"
         else:
             keys_ok = lambda k: k[0] == "param"
             want = "key parameter"
